@@ -100,6 +100,23 @@ def check_getters(ctx, spec, x, y, dx, dy):
         wv = m.cell(x, y)
         ctx.check(same_value(t.get_value(f["str"]), read_value(wv[0])), ("C19", "get_value", "str-vs-grid"),
                   f"get_value({f['str']!r}) = {t.get_value(f['str'])!r}, grid {wv!r}", case)
+        # a range whose ends are swapped bounds nothing: no method returns anything for it, whatever the distance
+        for gap in (1, 2, dx + 1):
+            x2, y2 = x + gap, y + gap
+            sw = {
+                "get_columns(tuple)": lambda: t.get_columns((x2, x)),
+                "get_columns(str)": lambda: t.get_columns(f"{alpha(x2)}:{alpha(x)}"),
+                "traverse_columns": lambda: list(t.traverse_columns(x2, x)),
+                "get_rows(tuple)": lambda: t.get_rows((y2, y)),
+                "get_rows(str)": lambda: t.get_rows(f"{y2 + 1}:{y + 1}"),
+                "traverse": lambda: list(t.traverse(y2, y)),
+                "get_cells(4-tuple columns swapped)": lambda: [c_ for r_ in t.get_cells((x2, y, x, y2)) for c_ in r_],
+                "get_values(4-tuple rows swapped)": lambda: [v_ for r_ in t.get_values((x, y2, x2, y)) for v_ in r_],
+            }
+            for label, fn in sw.items():
+                got = fn()
+                ctx.check(len(got) == 0, ("C19", label.split("(")[0], "swapped-range-not-empty"),
+                          f"{label} with ends swapped ({x2} > {x} / {y2} > {y}) returned {len(got)} item(s)", case)
         # rows / columns by single index --------------------------------------
         ry = {"int": y, "str": str(y + 1)}
         if 0 <= y < h:
